@@ -72,9 +72,26 @@ def _gen_one(i):
                            max_paths=20000 if tier == 'thorough' else 8000)
 
 
+def _light_worker(i):
+    """VC generation + discharge of one contract inside a pool worker; returns the picklable summary"""
+    from .verify import verify_contract, discharge_parallel
+    from .explore import SolverCache
+    c, tier, timeout = _GEN['mine'][i], _GEN['tier'], _GEN['timeout']
+    try:
+        rep = verify_contract(_GEN['world'], c, SolverCache(timeout_ms=1000),
+                              max_paths=20000 if tier == 'thorough' else 8000)
+        discharge_parallel([rep], timeout, 1)
+        retry_undischarged([rep], timeout * 2, limit=3)
+        return summarize(rep, c)
+    except Exception:
+        return {'id': c.id, 'error': traceback.format_exc(), 'obligations': [], 'notes': [], 'unsupported': [],
+                'covers': [], 'vacuous': False, 'paths': 0, 'wall': 0, 'serves': c.serves}
+
+
 def run_property(pid, tier, seed, only=None, jobs=None):
     from .verify import verify_contract, discharge_parallel, FunctionReport
     from .explore import SolverCache
+    import multiprocessing as mp
     t0 = time.time()
     contracts = load_contracts()
     known_all = load_known()
@@ -86,30 +103,39 @@ def run_property(pid, tier, seed, only=None, jobs=None):
     mine = [c for c in contracts if pid in c.serves and not c.trusted]
     if only:
         mine = [c for c in mine if any(o in c.id for o in only)]
+    skipped = []
+    if tier != 'thorough':
+        skipped = [c.id for c in mine if c.tier == 'thorough']
+        mine = [c for c in mine if c.tier != 'thorough']
     world = make_world(contracts)
     known = [k for k in known_all if k.get('property') == pid or pid in k.get('properties', [])]
     jobs = jobs or 16
-    reps = []
-    for c in mine:
-        try:
-            reps.append(verify_contract(world, c, SolverCache(timeout_ms=1000),
-                                        max_paths=20000 if tier == 'thorough' else 8000))
-        except Exception:
-            r = FunctionReport(c)
-            r.error = traceback.format_exc()
-            reps.append(r)
-    t1 = time.time()
     timeout = int(os.environ.get('VERIF_SOLVER_MS', 60000 if tier == 'thorough' else 20000))
-    good = [r for r in reps if not r.error]
-    discharge_parallel(good, timeout, jobs)
-    retry_undischarged(good, timeout * 3)
-    reports = []
-    for c, r in zip(mine, reps):
-        if r.error:
-            reports.append({'id': c.id, 'error': r.error, 'obligations': [], 'notes': [], 'unsupported': [],
-                            'covers': [], 'vacuous': False, 'paths': 0, 'wall': 0, 'serves': c.serves})
-        else:
-            reports.append(summarize(r, c))
+    light = [c for c in mine if not c.heavy]
+    heavy = [c for c in mine if c.heavy]
+    reports = {}
+    # light contracts: one pool task each (generation and discharge in the worker)
+    _GEN.update(mine=light, tier=tier, world=world, timeout=timeout)
+    if len(light) > 1 and jobs > 1:
+        with mp.get_context('fork').Pool(min(jobs, len(light))) as pool:
+            out = pool.map(_light_worker, range(len(light)), chunksize=1)
+    else:
+        out = [_light_worker(i) for i in range(len(light))]
+    for c, r in zip(light, out):
+        reports[c.id] = r
+    # heavy contracts: generated here, obligations discharged in a pool
+    for c in heavy:
+        try:
+            rep = verify_contract(world, c, SolverCache(timeout_ms=1000),
+                                  max_paths=20000 if tier == 'thorough' else 8000)
+            discharge_parallel([rep], timeout, jobs)
+            retry_undischarged([rep], timeout * 3)
+            reports[c.id] = summarize(rep, c)
+        except Exception:
+            reports[c.id] = {'id': c.id, 'error': traceback.format_exc(), 'obligations': [], 'notes': [],
+                             'unsupported': [], 'covers': [], 'vacuous': False, 'paths': 0, 'wall': 0,
+                             'serves': c.serves}
+    reports = [reports[c.id] for c in mine]
     # extra (non-function) obligations of this property: lemmas, table invariants, regex obligations
     extras = []
     try:
@@ -118,6 +144,8 @@ def run_property(pid, tier, seed, only=None, jobs=None):
         X = None
     if X is not None:
         extras = X.run(pid, tier, seed, world)
+    for cid in skipped:
+        print('NOTE %s is verified in the thorough tier only (slow)' % cid)
     return finish(pid, tier, seed, mine, contracts, reports, extras, known, time.time() - t0)
 
 
